@@ -92,6 +92,8 @@ def run(ctx):
     ]
     exe, tdrv, tool, model = build(ctx)
     pr = ctx.proofs("c10", "C10Theorems.v")
+    # the theorems about the output FILE (C01's box-tree model): own file, own proofs call (a C01 rebuild re-checks only this)
+    pr2 = ctx.proofs("c10", "C10FileTheorems.v")
     tmp = os.path.join(common.BUILD, "c10tmp", "run_%s_%d" % (ctx.tier, ctx.seed))
     shutil.rmtree(tmp, ignore_errors=True)
     os.makedirs(tmp, exist_ok=True)
@@ -160,10 +162,16 @@ def run(ctx):
             k = l.split("\t")[5]
             tclasses[k] = tclasses.get(k, 0) + 1
         tdistinct = len(set(l.split("\t", 3)[3] for l in tlines))
+        hyps = {}
+        for l in tout:
+            if " hyps=" in l:
+                k = l.split(" hyps=")[1]
+                hyps[k] = hyps.get(k, 0) + 1
         ctx.cov["evaluations"] += len(tlines)
         ctx.cov["distinct_nontrivial"] += tdistinct
         ctx.notes["tool_correspondence"] = {
             "cases": len(tlines), "tool_outcomes": tclasses, "mismatches": len(tmism), "distinct_cases": tdistinct,
+            "hypotheses_of_C10_output_decodes_on_the_successful_cases": hyps,
             "compared": "outcome class ok|err|panic; on ok every byte of the output file; the model's encoded length of the non-mdat "
                         "boxes against the sizeWithoutMdat that shifted the chunk offsets",
             "distribution": "every run of the whole-tool search (synthesized files x ~11 durations) + a malformed stream: a copy of every "
@@ -171,7 +179,8 @@ def run(ctx):
                             "the count) or tkhd/mvhd/mdhd (behind version/flags), 3 durations each",
         }
         ctx.cov["samples"] += [l[:300] for l in tlines[:1]]
-        ctx.log("tool correspondence: %d cases %s, %d mismatches" % (len(tlines), tclasses, len(tmism)))
+        ctx.log("tool correspondence: %d cases %s, %d mismatches; hypotheses of C10_output_decodes on the successful cases: %s"
+                % (len(tlines), tclasses, len(tmism), hyps))
         mism_tool = tmism
         fails, evals = [], 0
         for l in (so + so2).splitlines():
@@ -216,6 +225,7 @@ def run(ctx):
                           "model/implementation disagree on %d whole-tool cases, first: %s" % (len(mism_tool), mism_tool[0][:200]),
                           no_input=True)
         ctx.proof_violation_if_broken(pr, "c10 search: %d evaluations, no failing input" % evals)
+        ctx.proof_violation_if_broken(pr2, "c10 search: %d evaluations, no failing input" % evals)
         ctx.cov["rule"] = ("corr: %d generated consistent tables, crop for every k in 0..N+1 (all six routines), findTrakEnds/findEndTime/"
                            "fillTrakOutsAndByteRanges/updateChunkOffsets/writeUptoMdat/writeMdat/cropMP4-on-virtual-file grids; distinct = "
                            "distinct (op,arg,tables); search: prefix property, offsets-inside-mdat, durations, mdat bytes on every result "
